@@ -11,8 +11,9 @@ if os.path.isdir(f"{dst}/demo"):
 shutil.copytree(f"{src}/demo", f"{dst}/demo", ignore=shutil.ignore_patterns("target", "Cargo.lock"))
 meta = json.load(open(f"{src}/meta.json"))
 log = open(f"/tmp/confirm_{pid}.log").read()
+prop = pid[:3]
 meta.update({
-    "breaks_property": pid,
+    "breaks_property": prop,
     "origin": "fresh sub-agent given only the property text and a scratch worktree of /repo (nothing from /verif)",
     "confirmed_by_maintainer": {
         "what_was_run": "bin/confirm_seed.sh: git apply; cargo check -p marginfi; cargo test --workspace --no-fail-fast --offline; demo/run.sh with the change; git apply -R; demo/run.sh without",
